@@ -1,6 +1,7 @@
 package main
 
 import (
+	"encoding/json"
 	"flag"
 	"runtime/pprof"
 	"fmt"
@@ -26,6 +27,10 @@ func main() {
 		cmdRun(os.Args[2:])
 	case "check":
 		os.Exit(cmdCheck(os.Args[2:]))
+	case "selfcheck":
+		os.Exit(cmdSelfcheck(os.Args[2:]))
+	case "replay":
+		os.Exit(cmdReplay(os.Args[2:]))
 	case "tmplcheck":
 		os.Exit(cmdTmplCheck())
 	case "templates":
@@ -175,4 +180,38 @@ func cmdTmplCheck() int {
 			return out
 		}})
 	return runCheck("T00", checkOpts{tier: "quick", workers: 16, solver: "z3-new", timeout: 10000, cfgTimeout: 60})
+}
+
+// vx replay <path>: re-run one stored counterexample natively.
+func cmdReplay(argv []string) int {
+	if len(argv) != 1 {
+		fmt.Fprintln(os.Stderr, "usage: vx replay <evidence/replays/Cxx-n.json>")
+		return 2
+	}
+	data, err := os.ReadFile(argv[0])
+	if err != nil {
+		fmt.Fprintln(os.Stderr, err)
+		return 2
+	}
+	var w Witness
+	if err := json.Unmarshal(data, &w); err != nil {
+		fmt.Fprintln(os.Stderr, err)
+		return 2
+	}
+	p, err := LoadProgram(harnessRoot, []string{"./..."}, nil)
+	if err != nil {
+		fmt.Fprintln(os.Stderr, err)
+		return 2
+	}
+	outs, err := p.Replay(w.Pkg, []ReplayCase{{ID: "r", Func: w.Func, Args: w.Args, Active: w.Active}}, false)
+	if err != nil {
+		fmt.Fprintln(os.Stderr, err)
+		return 2
+	}
+	o := outs["r"]
+	fmt.Printf("%s(%s): %s %s\n", w.Func, strings.Join(w.Args, ", "), o.Outcome, o.Msg)
+	if o.Outcome == "assert" || o.Outcome == "panic" || o.Outcome == "timeout" {
+		return 1
+	}
+	return 0
 }
